@@ -2,7 +2,7 @@
   Props/C01/Sound.lean — `peval_sound`: the eager result of a ground expression, once its remaining
   inputs are bound, is the textbook value (`denote`) of the expression.
 -/
-import FunsorVerif.Props.C01.Reduce
+import FunsorVerif.Props.C01.Rows
 namespace FV.Props.C01
 open FV FV.C01
 
@@ -127,7 +127,7 @@ mutual
       simp only [peval] at h
       split at h
       · rename_i ra hra
-        have hs := unary_sem op ra r env h
+        have hs := unaryOp_sem op ra r env h hp
         have hsome : (ra.atEnv env).isSome := by
           have : (r.atEnv env).isSome := by rw [atEnv_isSome]; exact hp
           rw [hs] at this
@@ -233,7 +233,37 @@ mutual
       · cases h
     | Term.var _ _, r, h, _, _ => by simp [peval] at h
     | Term.slice _ _ _ _ _, r, h, _, _ => by simp [peval] at h
-    | Term.cat _ _ _ _, r, h, _, _ => by simp [peval] at h
+    | Term.cat n pn sizes parts, r, h, env, hp => by
+      simp only [peval] at h
+      split at h
+      · rename_i rs hrs
+        split at h
+        · rename_i hsz
+          have hsz' : catSizes pn rs = some sizes := by simpa using hsz
+          have hs := cat_sem n pn rs sizes r env hsz' h hp
+          have hsome : (r.atEnv env).isSome := by rw [atEnv_isSome]; exact hp
+          rw [hs] at hsome ⊢
+          simp only [denote]
+          cases hl : (env.lookup n).bind Sem.toNat? with
+          | none => rfl
+          | some g =>
+            rw [hl] at hsome
+            simp only at hsome ⊢
+            cases hloc : locate sizes g 0 with
+            | none => rfl
+            | some kl =>
+              obtain ⟨k, loc⟩ := kl
+              rw [hloc] at hsome
+              simp only at hsome ⊢
+              cases hpi : rs[k]? with
+              | none => rw [hpi] at hsome; simp at hsome
+              | some p =>
+                rw [hpi] at hsome
+                simp only at hsome ⊢
+                rw [atEnv_isSome] at hsome
+                exact pevalList_sound parts rs hrs k p hpi _ hsome
+        · cases h
+      · cases h
     | Term.independent _ _ _ _ _, r, h, _, _ => by simp [peval] at h
     | Term.align _ _, r, h, _, _ => by simp [peval] at h
     | Term.contraction _ _ _ _, r, h, _, _ => by simp [peval] at h
